@@ -85,7 +85,7 @@ type lexer struct {
 	tag      struct {      // current tag
 		name  string      // name
 		attr  string      // current attribute name
-		index int         // index of first byte of the current attribute value in src
+		index int         // index of first byte of the current attribute value in src, -1 if the value contains template code
 		ctx   ast.Context // context of the tag's content
 	}
 	rawMarker      []byte     // raw marker, not nil when a raw statement has been lexed
@@ -247,6 +247,12 @@ func (l *lexer) scan() {
 			}
 
 			if c == '{' && p+1 < len(l.src) {
+				if c := l.src[p+1]; c == '{' && !l.noParseShow || c == '%' || c == '#' {
+					// The attribute value contains template code, so its
+					// content is not known and l.tag.index no longer refers
+					// to a position in l.src.
+					l.tag.index = -1
+				}
 				switch l.src[p+1] {
 				case '{':
 					if l.noParseShow {
@@ -436,7 +442,7 @@ func (l *lexer) scan() {
 						p = 0
 						lin = l.line
 						col = l.column
-					} else if l.tag.attr == "type" {
+					} else if l.tag.attr == "type" && l.tag.index >= 0 {
 						switch l.tag.name {
 						case "script":
 							typ := l.src[l.tag.index:p]
